@@ -25,6 +25,14 @@ class Raised(Exception):
         self.text = text
 
 
+class RaisedIndexError(Raised, IndexError):
+    "raised by a folded subscript: also an IndexError, so Python protocols driven by mock classes (iteration by index) stop"
+
+
+class RaisedKeyError(Raised, KeyError):
+    pass
+
+
 class _Return(Exception):
     def __init__(self, value):
         self.value = value
@@ -85,7 +93,7 @@ class Interp:
         for nm, f in dict(attrgetter=_op.attrgetter, itemgetter=_op.itemgetter, partial=_ft.partial, reduce=_ft.reduce,
                           chain=_it.chain, repeat=_it.repeat, starmap=_it.starmap, zip_longest=_it.zip_longest, filterfalse=_it.filterfalse,
                           product=_it.product, islice=_it.islice, opr=_op, deque=collections.deque, defaultdict=collections.defaultdict,
-                          abs=abs, sum=sum, divmod=divmod, hash=hash, id=id, callable=callable, repr=repr, slice=slice, float=float).items():
+                          abs=abs, sum=sum, divmod=divmod, object=object, hash=hash, id=id, callable=callable, repr=repr, slice=slice, float=float).items():
             self.g.setdefault(nm, f)
         self.g.setdefault('type', lambda x: getattr(x, '_typ', type(x)))
         self.g.setdefault('bool', bool)
@@ -185,10 +193,27 @@ class Interp:
         except (TypeError, KeyError, AttributeError, IndexError, ValueError) as e:
             return Raises(f'{type(e).__name__}: {e}')
 
-    def call(self, fn: ast.FunctionDef, args: list, kwargs: dict | None = None):
+    def make_closure(self, node, env):
+        "a nested `def` / lambda: a callable that folds the body with the defining scope visible (by reference)"
+        def closure(*a, **k):
+            if isinstance(node, ast.Lambda):
+                fake = ast.FunctionDef(name='<lambda>', args=node.args, body=[ast.Return(value=node.body)], decorator_list=[], returns=None)
+                return self.call(fake, list(a), k, closure_env=env)
+            if any(isinstance(x, (ast.Yield, ast.YieldFrom)) for x in ast.walk(node)):
+                saved, self.yields = self.yields, []
+                try:
+                    self.call(node, list(a), k, closure_env=env)
+                    return iter(list(self.yields))
+                finally:
+                    self.yields = saved
+            return self.call(node, list(a), k, closure_env=env)
+        closure.__name__ = getattr(node, 'name', '<lambda>')
+        return closure
+
+    def call(self, fn: ast.FunctionDef, args: list, kwargs: dict | None = None, closure_env=None):
         a = fn.args
         params = [x.arg for x in a.posonlyargs + a.args]
-        env = {}
+        env = {} if closure_env is None else collections.ChainMap({}, closure_env)
         if len(args) > len(params) and not a.vararg:
             raise self.fail(f'too many arguments for {fn.name}')
         for p, v in zip(params, args):
@@ -244,6 +269,15 @@ class Interp:
                     self.yields.extend(items)
                     continue
                 self.ev(st.value, env)
+                continue
+            if isinstance(st, ast.FunctionDef):
+                f = self.make_closure(st, env)
+                for d in reversed(st.decorator_list):
+                    dn = ast.unparse(d).split('(')[0]
+                    if dn in ('wraps', 'functools.wraps'):
+                        continue            # metadata only
+                    f = self.ev(d, env)(f)
+                env[st.name] = f
                 continue
             if isinstance(st, (ast.Import, ast.ImportFrom)):
                 # names must be supplied by the caller as globals
@@ -495,12 +529,16 @@ class Interp:
                     if any(isinstance(x, (ast.Yield, ast.YieldFrom)) for x in ast.walk(st)):
                         return lambda *a, **k: iter(self.generate(st, list(a), k))
                     return lambda *a, **k: self.call(st, list(a), k)
-                if isinstance(st, ast.Assign) and len(st.targets) == 1 and isinstance(st.targets[0], ast.Name) and st.targets[0].id == name \
-                        and body is tree.body:
-                    try:
-                        return self.ev(st.value, {})
-                    except Unsupported:
-                        return MISSING
+                if isinstance(st, ast.Assign) and len(st.targets) == 1 and isinstance(st.targets[0], ast.Name) and st.targets[0].id == name:
+                    # module level, or a local of the enclosing function that the closure reads (e.g. a hoisted `Key = Cls.Key`)
+                    ck = (id(st), name)
+                    cache = self.__dict__.setdefault('_home_cache', {})
+                    if ck not in cache:
+                        try:
+                            cache[ck] = self.ev(st.value, {})      # evaluated once: `SENTINEL = object()` must stay one object
+                        except (Unsupported, Raised):
+                            return MISSING
+                    return cache[ck]
         return MISSING
 
     def _comp(self, gens, i, env, emit):
@@ -545,9 +583,9 @@ class Interp:
             try:
                 return o[k]
             except KeyError:
-                raise Raised(f'KeyError {k!r}')
+                raise RaisedKeyError(f'KeyError {k!r}')
             except IndexError:
-                raise Raised(f'IndexError {k!r}')
+                raise RaisedIndexError(f'IndexError {k!r}')
         if isinstance(e, ast.Compare):
             left = self.ev(e.left, env)
             for op, r in zip(e.ops, e.comparators):
@@ -636,10 +674,16 @@ class Interp:
                 else:
                     out.append(self.ev(x, env))
             return tuple(out)
-        if isinstance(e, ast.List):
-            return [self.ev(x, env) for x in e.elts]
-        if isinstance(e, ast.Set):
-            return {self.ev(x, env) for x in e.elts}
+        if isinstance(e, (ast.List, ast.Set)):
+            out = []
+            for x in e.elts:
+                if isinstance(x, ast.Starred):
+                    out.extend(self.ev(x.value, env))
+                else:
+                    out.append(self.ev(x, env))
+            return out if isinstance(e, ast.List) else set(out)
+        if isinstance(e, ast.Lambda):
+            return self.make_closure(e, env)
         if isinstance(e, ast.Dict):
             d = {}
             for k, v in zip(e.keys, e.values):
